@@ -1,6 +1,8 @@
 import Proofs.ScannerChunk
 import Proofs.C07Splitters
 import Proofs.C07Regex
+import Proofs.C07Blank
+import Proofs.C07Lit
 /-!
 # C07 — record reading is lossless and independent of how input bytes arrive
 
@@ -32,6 +34,18 @@ theorem regex_chunk_independent (m : Bytes → Option (Nat × Nat)) (hr : InRang
     (chunks : List Bytes) :
     scan (splitRegex m) [] chunks false = scan (splitRegex m) [] [chunks.flatten] false :=
   Scanner.chunk_independent _ (wf_regex m hr hs) chunks
+
+/-- RS = "" (paragraph mode, `blankLineSplitter` as repaired): records and RT do not depend on the chunking -/
+theorem blank_chunk_independent (chunks : List Bytes) :
+    scan splitBlank [] chunks false = scan splitBlank [] [chunks.flatten] false :=
+  Scanner.chunk_independent _ wf_blank chunks
+
+/-- RS = one multi-byte character or any other literal of two or more bytes (GoAWK routes these through the regex
+splitter with a quoted literal): unconditional chunk independence and losslessness. -/
+theorem literal_chunk_independent (lit : Bytes) (chunks : List Bytes) :
+    scan (splitRegex fun d => findLit lit d 0) [] chunks false =
+    scan (splitRegex fun d => findLit lit d 0) [] [chunks.flatten] false :=
+  Scanner.chunk_independent _ (wf_regex _ (lit_inRange lit) (lit_matchStable lit)) chunks
 
 /-- regex RS is lossless for every chunking (records followed by their RT reproduce the input), given only that the
 matcher reports in-range positions and — for the chunked run to equal the one-piece run — stability. -/
@@ -66,9 +80,15 @@ theorem regex_chunk_dependent_F10 :
     scan (splitRegex f10Matcher) [] [[120, 97, 98, 99, 100, 121]] false := by
   simp [scan, splitRegex, f10Matcher, findLit, List.isPrefixOf]
 
+theorem literal_lossless (lit : Bytes) (chunks : List Bytes) :
+    ((scan (splitRegex fun d => findLit lit d 0) [] chunks false).map fun p => p.1 ++ p.2).flatten = chunks.flatten :=
+  regex_lossless _ (lit_inRange lit) (lit_matchStable lit) chunks
+
 -- non-vacuity: a concrete chunking with separators inside and across chunks
 example : scan splitNewline [] [[97, 13], [10, 98], [10]] false = [([97], [10]), ([98], [10])] := by
   simp [scan, splitNewline, indexByte, dropCR]
+example : scan splitBlank [] [[97, 10], [10, 10, 98]] false = [([97], [10, 10, 10]), ([98], [])] := by
+  simp [scan, splitBlank, blankBody, findBlank, shift, isNL, dropCR, dropLF]
 example : scan (splitByte 59) [] [[97, 59], [59, 98]] false = [([97], [59]), ([], [59]), ([98], [59])] := by
   simp [scan, splitByte, indexByte]
 
